@@ -194,7 +194,7 @@ def corr_functions(ctx, drv, rng, tie_bad):
     import gstools as gs
     from gstools.field.generator import Fourier
     from gstools.tools.geometric import generate_grid as gg
-    n_cfg = 60 if ctx.tier == "thorough" else 22
+    n_cfg = 250 if ctx.tier == "thorough" else 40
 
     def bad(what, case, key):
         tie_bad.append(what)
@@ -341,10 +341,14 @@ def gen_history(rng, dim, n_ops, classes):
             ops.append(dict(op="update", **kw))
         elif u < 0.9:
             ops.append(dict(op="seed", seed=int(rng.integers(0, 1000))))
-        elif u < 0.94:
+        elif u < 0.93:
             ops.append(dict(op="nothing"))
-        else:
+        elif u < 0.96:
             ops.append(dict(op="same_model"))
+        elif u < 0.98:
+            ops.append(dict(op="period", period=[]))                     # empty period: rejected
+        else:
+            ops.append(dict(op="mode_no", mode_no=[int(rng.choice([0, -2]))] + gen_mode_no(rng, dim, big=False)[:dim - 1]))
     return ops
 
 
@@ -416,7 +420,7 @@ def state_matches(drv_state, gen, tags):
 
 def corr_histories(ctx, drv, rng, tie_bad):
     from gstools.field.generator import Fourier
-    n_hist = 40 if ctx.tier == "thorough" else 14
+    n_hist = 400 if ctx.tier == "thorough" else 50
     n_ops_total = 0
     tags = {}
     for h in range(n_hist):
@@ -492,7 +496,7 @@ def run_probe_config(case):
 
 
 def probe_configs(ctx, rng):
-    n = 160 if ctx.tier == "thorough" else 45
+    n = 3000 if ctx.tier == "thorough" else 300
     worst_seen = 0.0
     for i in range(n):
         dim = int(rng.integers(1, 4))
@@ -574,7 +578,7 @@ def run_probe_history(case):
 
 
 def probe_histories(ctx, rng):
-    n = 60 if ctx.tier == "thorough" else 18
+    n = 800 if ctx.tier == "thorough" else 90
     hostile = hostile_arange(rng)
     ctx.notes.append("float-arange-hostile (count, period) pairs used in history probes: %d" % len(hostile))
     worst_seen = 0.0
@@ -584,7 +588,7 @@ def probe_histories(ctx, rng):
         period = gen_period(rng, dim)
         mode_no = gen_mode_no(rng, dim, big=False)
         ops = [o for o in gen_history(rng, dim, int(rng.integers(2, 7)), ANALYTIC)
-               if o["op"] not in ("nothing", "same_model")]
+               if o["op"] not in ("nothing", "same_model") and o.get("period", 1) != [] and min(o.get("mode_no", [2])) >= 0]
         tagk = "random"
         if i >= n:
             # a count/period pair on which a float-step arange has one entry too many, then a period / model change
